@@ -5,7 +5,7 @@
     JSON value stands for a YANG data tree, when a decoded value meets it). *)
 From Coq Require Import ZArith List Bool Strings.Byte.
 From YV Require Import Val.Model Tree.Schema Tree.Export Tree.JStr Tree.JStrProofs Tree.JsonSpec Tree.JsonSpecProofs
-  Tree.JsonNumProofs Tree.JsonExp Tree.JsonW Tree.JsonWProofs.
+  Tree.JsonNumProofs Tree.JsonLexProofs Tree.JsonExp Tree.JsonW Tree.JsonWProofs.
 Import ListNotations.
 Open Scope Z_scope.
 
@@ -78,6 +78,27 @@ Theorem C15_writer_wellformed : forall fmt_float cfg idmod st e,
 Proof. exact writer_wellformed. Qed.
 Print Assumptions C15_writer_wellformed.
 
+(** down to the bytes handed to Out: they lex (reference string decoder, whitespace skipped, numbers by
+    the RFC grammar) and parse as exactly one value and nothing else - the expected value tree with
+    every string as the decoder reads it; when all strings are well-formed UTF-8 that is the tree
+    itself and it meets the expectation.  [ekeys_safe]: member names consist of htmlSafeSet bytes
+    (YANG identifiers and module:identifier do) *)
+Theorem C15_writer_bytes : forall fmt_float cfg idmod st e,
+  estart cfg idmod st = Some e -> exp_ok fmt_float e = true -> ekeys_safe e = true ->
+  exists bytes, write_bytes cfg fmt_float idmod st = Some bytes /\
+                parse_bytes bytes = Some (san_v (conc fmt_float e)) /\
+                (exp_utf8 e = true -> parse_bytes bytes = Some (conc fmt_float e) /\ matches e (conc fmt_float e) = true).
+Proof. exact writer_bytes. Qed.
+Print Assumptions C15_writer_bytes.
+
+(** the lexer reads back the rendering of any token stream that, whitespace aside, is a raw canonical
+    serialisation (independent of the writer) *)
+Theorem C15_bytes_of_serialisation : forall ts v,
+  strip_ws ts = rtoks_of v -> keys_safe v = true -> nums_ok v = true ->
+  parse_bytes (render ts) = Some (san_v v).
+Proof. exact parse_bytes_render. Qed.
+Print Assumptions C15_bytes_of_serialisation.
+
 (** the canonical serialisation of any value tree is in the grammar and is read back by the parser *)
 Theorem C15_serialisation_parses : forall v, nums_ok v = true ->
   wf_value (toks_of v) /\ parse_tokens (toks_of v) = Some v.
@@ -119,12 +140,12 @@ Definition ex_float (m e : Z) : list byte := [x30].
     its minimum and an unset string leaf with a default made of a quote and a line feed *)
 Example C15_example :
   exists e, estart (mkCfg true true true) (fun _ => None) (StCont true ex_schema ex_data) = Some e /\
-            exp_ok ex_float e = true /\
+            exp_ok ex_float e = true /\ ekeys_safe e = true /\
             option_map render (wstart (mkCfg false true true) ex_float (fun _ => None) (StCont true ex_schema ex_data)) =
             Some [x7b; x22; x6d; x3a; x65; x22; x3a; x5b; x6e; x75; x6c; x6c; x5d; x2c; x22; x74; x3a; x71; x22; x3a; x5b; x7b;
                   x22; x6b; x22; x3a; x2d; x39; x32; x32; x33; x33; x37; x32; x30; x33; x36; x38; x35; x34; x37; x37; x35; x38; x30; x38;
                   x2c; x22; x73; x22; x3a; x22; x5c; x22; x5c; x6e; x22; x7d; x5d; x7d].
-Proof. eexists. split; [vm_compute; reflexivity|]. split; vm_compute; reflexivity. Qed.
+Proof. eexists. split; [vm_compute; reflexivity|]. split; [vm_compute; reflexivity|]. split; vm_compute; reflexivity. Qed.
 Print Assumptions C15_example.
 
 (** before the fix a leaf of type empty was written as the bare text <not empty>: not JSON *)
